@@ -16,6 +16,34 @@ CLAIMED = {
         'cos/sin/deg2rad, IEEE rounding not modelled (1e-9 block-relative tolerance). MatLamina.rebuild invariants and '
         'lamination-parameter route are outside C01.',
    technique='Lean 4 proof over hand model + differential correspondence (model at Q vs Python)', ref='4/C01'),
+ 'C02': dict(
+   text='The Lean model of every analytic stiffness kernel (fk0, fk0y1y2 of plate, plate_w, cpanel, kpanel) is REGENERATED '
+        'from the .pyx source text on every run; 8 kernel-checked theorems state that each generated entry equals the '
+        'second derivative of the Donnell CLT strain energy (operator tables of Spec/Kinematics.lean) for all series indices, '
+        'geometries, ABD-structured laminates, all real flag values and both domains, uniformly (abstract integrals J). '
+        'Whole-matrix layer: the translator IR is interpreted on random panels against Panel.calc_k0(finalize=False) of the '
+        'running binaries (V), and an independent energy-Hessian oracle (operator tables x exact Bardell integrals) is '
+        'compared with calc_k0 incl. pre-load, symmetry, PSD and sub-interval additivity (implementation arm).',
+   note='Trusted: Lean kernel, Mathlib, translator (validated by V each run), operator tables, abstract J tied to C tables '
+        'by C10, Cython build not verified (V vs in-tree .so), loop nest/placement/finalize checked numerically not proved, '
+        'rounding not modelled.',
+   technique='Lean 4 proof over model regenerated from source (translator) + translation validation + energy oracle', ref='4/C02'),
+ 'C03': dict(
+   text='Regenerated Lean models of fkG0/fkG0y1y2 (4 models); 9 theorems: each entry is the Hessian of the pre-stress work '
+        '1/2 int(Nxx w,x^2 + 2Nxy w,x w,y + Nyy w,y^2) (only the w-w block, symmetric weight, linear in the resultants) for all '
+        'indices/geometries/flags. V + oracle as C02; linearity, w-only footprint, and the state-based fkG_num clauses '
+        '(uniform-stress state reproduces the constant-load matrix; per-point laminate table equal to the uniform one changes '
+        'nothing) are evaluated numerically on the implementation.',
+   note='As C02. fkG_num is not yet translated to Lean: its clauses are exploration-level here.',
+   technique='Lean 4 proof over regenerated model + translation validation + oracle', ref='4/C03'),
+ 'C04': dict(
+   text='Regenerated Lean models of fkM/fkMy1y2; 7 theorems: each of the entries equals the Hessian of the kinetic energy '
+        'of a plate with through-thickness moments (h, h*delta, h(delta^2+h^2/12)) with delta = -d, i.e. the theorems compute '
+        'which reference surface the kernels use. The glue (which d is passed) is checked against the laminate convention by '
+        'an oracle, total mass of a rigid translation, positive definiteness on active amplitudes and frequency invariance '
+        'under a move of the reference surface. A genuine defect (wrong sign passed by Panel.calc_kM) was repaired (fix: ca9efb9).',
+   note='As C02; LAPACK eigh trusted for the invariance predicate.',
+   technique='Lean 4 proof over regenerated model + translation validation + oracle', ref='4/C04'),
  'C09': dict(
    text='Lean 4 theorems about a hand-written executable state-machine model of _solver_NR (all residual and '
         'line-search histories, all admissible configurations): every reported pair is immediately preceded by a '
@@ -50,7 +78,7 @@ def main():
           for p in ALL if p not in CLAIMED]
     m = dict(
         version=1,
-        setup_cmd='mkdir -p .scratch replays evidence && cd lean && lake build',
+        setup_cmd='mkdir -p .scratch replays evidence && /venv/bin/python -m tools.translate.gen_all && cd lean && lake build',
         hooks=dict(guard='COMPMECH_VERIF', enable='no source hooks are needed: callables/solvers are reached through module attributes and sys.settrace from the harness process',
                    baseline_off_cmd='cd /repo && /venv/bin/python -m pytest -ra -q -p no:cacheprovider --timeout=900 --continue-on-collection-errors',
                    source_commits=[], add_only=True),
@@ -60,6 +88,15 @@ def main():
         notes='See DESIGN.md. Known genuine defects recorded in known_findings.json.',
         not_applicable=na)
     json.dump(m, open(os.path.join(V, 'MANIFEST.json'), 'w'), indent=1)
+    # root of the Lean library: everything that exists
+    mods = []
+    for sub in ('Props', 'Drv'):
+        d = os.path.join(V, 'lean', 'CompmechVerif', sub)
+        for fn in sorted(os.listdir(d)):
+            if fn.endswith('.lean') and (sub != 'Props' or fn[:-5] in CLAIMED):
+                mods.append('import CompmechVerif.%s.%s' % (sub, fn[:-5]))
+    open(os.path.join(V, 'lean', 'CompmechVerif.lean'), 'w').write(
+        '-- Root of the `CompmechVerif` library (generated by tools/gen_manifest.py)\n' + '\n'.join(mods) + '\n')
 
 if __name__ == '__main__':
     main()
